@@ -672,3 +672,135 @@ Definition four : st := cl_run 5 [NewAfter 1 0 false 0; NewAfter 2 1 false 0; Ne
 Example reordering_example :
   to_list 5 (fold_left (step 5) [Swap 2 4; Swap 3 4; Swap 4 3; MoveAfter 1 4; Swap 2 1] four) = [4; 2; 3; 1].
 Proof. vm_compute. reflexivity. Qed.
+
+(* ---------------------------------------------------------------- AddHead / AddTail *)
+Lemma last_default : forall (l : list nat) a b, l <> [] -> last l a = last l b.
+Proof. induction l as [|x l IH]; intros a b H; [congruence|]. destruct l as [|y l']; [reflexivity|]. change (last (y :: l') a = last (y :: l') b). apply IH. discriminate. Qed.
+
+Lemma add_head_char : forall s o, o <> 0 -> hd_ s <> o ->
+  let s' := add_head s o in
+  (forall y, nxt s' y = if Nat.eqb y o then hd_ s else nxt s y) /\
+  (forall y, prv s' y = if Nat.eqb y (hd_ s) && negb (Nat.eqb (hd_ s) 0) then o else if Nat.eqb y o then 0 else prv s y) /\
+  hd_ s' = o /\ tl_ s' = (if Nat.eqb (hd_ s) 0 then o else tl_ s) /\ isnl s' = isnl s /\ nlc s' = nlc s.
+Proof.
+  intros s o Ho Hn. unfold add_head. destruct s as [nx pv h t i c]. cbn [nxt prv hd_ tl_] in *.
+  repeat split; try intros y; eqb_cases; cbn [nxt prv hd_ tl_ isnl nlc set_hd set_tl set_prv set_nxt] in *; unfold upd in *; eqb_all; subst; try reflexivity; try congruence; try lia.
+Qed.
+
+Theorem add_head_repr : forall s l o, repr s l -> o <> 0 -> ~ In o l ->
+  repr (add_head s o) (o :: l) /\ isnl (add_head s o) = isnl s /\ nlc (add_head s o) = nlc s.
+Proof.
+  intros s l o (ND & N0 & Hh & Ht & C) Ho Hn.
+  assert (Hho : hd_ s <> o). { rewrite Hh. destruct l as [|z l']; simpl; [congruence|]. intro; subst. apply Hn. left; reflexivity. }
+  destruct (add_head_char s o Ho Hho) as (RN & RP & RH & RT & RI & RC).
+  remember (add_head s o) as s' eqn:Es'. clear Es'.
+  split; [|split; assumption].
+  unfold repr. split; [constructor; assumption|]. split; [intros [E|E]; [congruence|contradiction]|].
+  split; [exact RH|]. split.
+  - rewrite RT, Hh. destruct l as [|z l'] eqn:El; [reflexivity|]. rewrite <- El in *.
+    assert (Z : hd 0 l <> 0) by (subst l; simpl; intro; subst; apply N0; left; reflexivity).
+    rewrite (eqb_false _ 0 Z). rewrite Ht, last_cons. apply last_default. subst; discriminate.
+  - cbn [chain]. split; [rewrite RP, eqb_refl'; rewrite (eqb_false o (hd_ s)) by congruence; reflexivity|].
+    split; [rewrite RN, eqb_refl'; exact Hh|].
+    apply chain_set_first with (s := s) (p := 0).
+    + exact C.
+    + intros y Hy. rewrite RN. rewrite eqb_false by (intro; subst; contradiction). reflexivity.
+    + intros y Hy. rewrite RP, Hh. destruct l as [|z l']; [contradiction|]. simpl in Hy. simpl hd.
+      apply NoDup_cons_iff in ND. rewrite (eqb_false y z) by (intro; subst; tauto). simpl.
+      rewrite eqb_false by (intro; subst; apply Hn; right; exact Hy). reflexivity.
+    + intros Hl. rewrite RP, Hh, eqb_refl'. rewrite eqb_false; [reflexivity|]. intro E. apply N0. rewrite <- E. apply hd_in. exact Hl.
+Qed.
+
+Lemma add_tail_char : forall s o, o <> 0 -> tl_ s <> o ->
+  let s' := add_tail s o in
+  (forall y, nxt s' y = if Nat.eqb y (tl_ s) && negb (Nat.eqb (tl_ s) 0) then o else if Nat.eqb y o then 0 else nxt s y) /\
+  (forall y, prv s' y = if Nat.eqb y o then tl_ s else prv s y) /\
+  hd_ s' = (if Nat.eqb (tl_ s) 0 then o else hd_ s) /\ tl_ s' = o /\ isnl s' = isnl s /\ nlc s' = nlc s.
+Proof.
+  intros s o Ho Hn. unfold add_tail. destruct s as [nx pv h t i c]. cbn [nxt prv hd_ tl_] in *.
+  repeat split; try intros y; eqb_cases; cbn [nxt prv hd_ tl_ isnl nlc set_hd set_tl set_prv set_nxt] in *; unfold upd in *; eqb_all; subst; try reflexivity; try congruence; try lia.
+Qed.
+
+Theorem add_tail_repr : forall s l o, repr s l -> o <> 0 -> ~ In o l ->
+  repr (add_tail s o) (l ++ [o]) /\ isnl (add_tail s o) = isnl s /\ nlc (add_tail s o) = nlc s.
+Proof.
+  intros s l o (ND & N0 & Hh & Ht & C) Ho Hn.
+  assert (Hlast : l <> [] -> In (last l 0) l) by (intro; apply last_in; assumption).
+  assert (Hto : tl_ s <> o). { rewrite Ht. destruct (list_eq_dec Nat.eq_dec l []) as [El|El]; [subst; simpl; congruence|]. intro E. apply Hn. rewrite <- E. apply Hlast, El. }
+  destruct (add_tail_char s o Ho Hto) as (RN & RP & RH & RT & RI & RC).
+  remember (add_tail s o) as s' eqn:Es'. clear Es'.
+  split; [|split; assumption].
+  unfold repr. split.
+  { apply nodup_insert; rewrite app_nil_r; assumption. }
+  split; [intro H0; apply in_app_or in H0; destruct H0 as [H0|[H0|[]]]; [contradiction|congruence]|].
+  split; [|split].
+  - rewrite RH, Ht. destruct l as [|z l'] eqn:El; [reflexivity|]. rewrite <- El in *.
+    assert (Z : last l 0 <> 0) by (intro E; apply N0; rewrite <- E; apply Hlast; subst; discriminate).
+    rewrite (eqb_false _ 0 Z). rewrite Hh. subst; reflexivity.
+  - rewrite RT. rewrite last_app_ne by discriminate. reflexivity.
+  - apply chain_app. split.
+    + simpl hd. apply chain_set_last with (s := s) (n := 0); auto.
+      * intros y Hy. rewrite RP. rewrite eqb_false by (intro; subst; contradiction). reflexivity.
+      * intros y Hy Hne. rewrite RN, Ht. rewrite (eqb_false y (last l 0) Hne). simpl. rewrite eqb_false by (intro; subst; contradiction). reflexivity.
+      * intros Hl. rewrite RN, Ht, eqb_refl'. rewrite eqb_false; [reflexivity|]. intro E. apply N0. rewrite <- E. apply Hlast, Hl.
+    + cbn [chain hd]. split; [rewrite RP, eqb_refl'; exact Ht|]. split; [|exact I].
+      rewrite RN, eqb_refl'. rewrite (eqb_false o (tl_ s)) by congruence. reflexivity.
+Qed.
+
+(* ---------------------------------------------------------------- every reachable state, from the empty list *)
+Lemma empty_repr : repr empty [].
+Proof. unfold repr. repeat split; try reflexivity; [constructor|intros []]. Qed.
+
+Lemma fresh_detached : forall s o nl c, nxt (fresh s o nl c) o = 0 /\ prv (fresh s o nl c) o = 0.
+Proof. intros. unfold fresh. cbn [nxt prv set_prv set_nxt set_nlc set_isnl]. unfold upd. rewrite eqb_refl'. split; reflexivity. Qed.
+
+Definition ok_op2 (l : list nat) (p : op) : Prop :=
+  match p with
+  | Delete x => In x l
+  | MoveAfter x r => In x l /\ In r l /\ x <> r
+  | NewAfter o r _ _ => (r = 0 \/ In r l) /\ o <> 0 /\ ~ In o l
+  | NewBefore o r _ _ => (r = 0 \/ In r l) /\ o <> 0 /\ ~ In o l
+  | _ => False
+  end.
+Definition abs_op2 (l : list nat) (p : op) : list nat :=
+  match p with
+  | Delete x => rem x l
+  | MoveAfter x r => ins_after r x (rem x l)
+  | NewAfter o r _ _ => if Nat.eqb r 0 then o :: l else ins_after r o l
+  | NewBefore o r _ _ => if Nat.eqb r 0 then l ++ [o] else ins_before r o l
+  | _ => l
+  end.
+Fixpoint oks2 (l : list nat) (ops : list op) : Prop :=
+  match ops with [] => True | p :: ps => ok_op2 l p /\ oks2 (abs_op2 l p) ps end.
+
+Lemma step_refines2 : forall fuel s l p, repr s l -> ok_op2 l p -> repr (step fuel s p) (abs_op2 l p).
+Proof.
+  intros fuel s l p R H.
+  assert (N0 : ~ In 0 l) by (destruct R as (_ & N0 & _); exact N0).
+  destruct p as [o r nl c|o r nl c|x|x r|a b|a b]; simpl in H; try contradiction; simpl.
+  - destruct H as (Hr & Ho & Hn). destruct (Nat.eqb_spec r 0) as [E|E].
+    + apply add_head_repr; auto. apply fresh_repr; assumption.
+    + destruct Hr as [Hr|Hr]; [contradiction|]. apply add_after_abs; auto. apply fresh_repr; assumption.
+  - destruct H as (Hr & Ho & Hn). destruct (Nat.eqb_spec r 0) as [E|E].
+    + apply add_tail_repr; auto. apply fresh_repr; assumption.
+    + destruct Hr as [Hr|Hr]; [contradiction|]. destruct (fresh_detached s o nl c) as [F1 F2].
+      apply add_before_abs; auto. apply fresh_repr; assumption.
+  - apply remove_abs; assumption.
+  - destruct H as (Hx & Hr & Hne). apply move_after_abs; assumption.
+Qed.
+
+(** Every reachable state: starting from the EMPTY list, any sequence of Chunk::CopyAndAddAfter / CopyAndAddBefore (with a linked reference or
+    the null chunk), Chunk::Delete and Chunk::MoveAfter on linked chunks leaves the heap exactly the abstract sequence computed by the list
+    functions - well-linked in both directions, nothing lost, nothing duplicated. *)
+Theorem list_from_empty : forall fuel ops, oks2 [] ops ->
+  repr (cl_run fuel ops) (fold_left abs_op2 ops []).
+Proof.
+  intros fuel ops H. unfold cl_run. generalize empty_repr. generalize H. clear H. generalize empty. generalize (@nil nat).
+  induction ops as [|p ps IH]; intros l s H R; [exact R|].
+  cbn [fold_left]. destruct H as [H1 H2]. apply IH; [exact H2|apply step_refines2; assumption].
+Qed.
+
+Example list_from_empty_example :
+  oks2 [] [NewAfter 1 0 false 0; NewBefore 2 0 true 1; NewBefore 3 2 false 0; NewAfter 4 1 false 0; MoveAfter 1 2; Delete 4]
+  /\ fold_left abs_op2 [NewAfter 1 0 false 0; NewBefore 2 0 true 1; NewBefore 3 2 false 0; NewAfter 4 1 false 0; MoveAfter 1 2; Delete 4] [] = [3; 2; 1].
+Proof. split; [vm_compute; intuition congruence|vm_compute; reflexivity]. Qed.
